@@ -60,7 +60,8 @@ def preset_constants(lib):
             continue
         if f["inputs"]:
             continue
-        b = lib.bodies[path]
+        from .common import look_through_private
+        b = look_through_private(lib, lib.bodies[path])
         for s in b.assigns():
             rv = s.node["rv"]
             if rv["k"] == "agg" and rv.get("adt") == "options::Options":
